@@ -326,7 +326,9 @@ class Safe:
             body = cl[2] if cl[2][0] == "block" else ("block", [], cl[2])
             stmts = list(body[1]) + ([("expr", body[2])] if body[2] is not None else [])
             inner = self.stmts(stmts, None, env2)
-            return self.ex(recv_e[1][3][0], env, mty[1]) + [f"(∀ ({lname(pv)} : {lty(mty[2])}), {o})" for o in inner] + self.ex(args[0], env, mty[2])
+            mtxt, _ = self.txt(recv_e[1][1], env)
+            # the closure runs on the entry of the key, if there is one: quantify over the values actually in the map
+            return self.ex(recv_e[1][3][0], env, mty[1]) + [f"(∀ kv_ ∈ {par(mtxt)}, (let {lname(pv)} := kv_.2; {o}))" for o in inner] + self.ex(args[0], env, mty[2])
         obs = self.ex(recv_e, env)
         if name == "signed_duration_since":
             return obs + self.ex(args[0], env)
@@ -468,6 +470,8 @@ class Safe:
             acc = set()
             self.tr.assigned(e, acc, env)
             acc = [v for v in sorted(acc) if v in env or v == "self"]
+            if k0 == "assign":
+                obs = obs + self.lhs_index_obs(e[1], env)
             if k0 == "assign" and self.tr.entry_target(e[1]) is None and not acc_is_compound(e):
                 # a plain assignment: rebind exactly as the translator does
                 try:
@@ -482,6 +486,19 @@ class Safe:
                     return obs + self.wrap(pre, self.stmts(rest, tail, env, expect))
                 except TErr:
                     pass
+            if acc and not self.tr.contains_return(e):
+                # a statement that assigns outer variables: thread the state exactly as the translator does
+                # (`let x := <new value>;` in front of what follows), so that what follows is stated about the real new state
+                try:
+                    got = {}
+                    def k_(env2, got=got):
+                        got["env"] = env2
+                        return "\0"
+                    txt = self.tr.seq([s], None, dict(env), k_, None, {}, allow_return=False)
+                    if txt.endswith("\0"):
+                        return obs + self.wrap(txt[:-1], self.stmts(rest, tail, got.get("env", env), expect))
+                except TErr:
+                    pass
             rest_obs = self.stmts(rest, tail, env, expect)
             if k0 == "if" and e[3] is None and diverges(e[2]) and not acc:
                 # `if c { ..; return / continue }`: what follows runs only when c does not hold
@@ -490,6 +507,19 @@ class Safe:
                 return obs + self.havoc(acc, env, rest_obs)
             return obs + rest_obs
         raise TErr("safety pass: statement " + s[0])
+
+    def lhs_index_obs(self, lhs, env):
+        """`a[i] = v`: the index must be inside the array"""
+        out = []
+        while lhs[0] in ("field", "index", "paren"):
+            if lhs[0] == "index":
+                base, bty = self.txt(lhs[1], env)
+                if lhs[2][0] != "lit_int":
+                    idx, _ = self.txt(lhs[2], env, NAT(64))
+                    out += self.ex(lhs[2], env, NAT(64))
+                    out.append(f"({idx} < {(bty[2] or 2) if bty[0] == 'arr' else par(base) + '.length'})")
+            lhs = lhs[1]
+        return out
 
     def havoc(self, acc, env, obs):
         if not obs:
